@@ -50,6 +50,8 @@ type Profile struct {
 	// HostileFields: attribute names only from the hostile pool (keywords, predeclared
 	// identifiers, Goify collisions, names the generated code uses itself)
 	HostileFields bool
+	// DualTransport: some HTTP services are served over gRPC too
+	DualTransport bool
 	// AbsoluteRoutes: extra routes of a multi-route endpoint may be absolute ("//path")
 	AbsoluteRoutes bool
 	// AliasDefaults: primitive alias types may declare a Default on the type
@@ -125,7 +127,7 @@ func Views() Profile {
 // Security is the C06 profile.
 func Security() Profile {
 	return Profile{Name: "security", MaxServices: 2, MaxMethods: 3, MaxFields: 3, Runtime: true,
-		Validations: true, Defaults: true, UserTypes: true, MultiRoute: true, BasePaths: true, Security: true, Errors: true, NoBodyVerbs: true}
+		Validations: true, Defaults: true, UserTypes: true, MultiRoute: true, BasePaths: true, Security: true, Errors: true, NoBodyVerbs: true, DualTransport: true}
 }
 
 // Response is the C03 profile.
@@ -285,6 +287,40 @@ func (g *G) design() {
 	svcScope := map[string]bool{}
 	for i := 0; i < ns; i++ {
 		g.service(svcScope)
+	}
+	// some services are served over gRPC as well as HTTP (same methods, two
+	// transports): the transports finalize the same method expressions one
+	// after the other
+	if g.p.DualTransport {
+		dual := false
+		for _, s := range d.Services {
+			if !s.HasHTTP || len(s.Files) > 0 || rapid.IntRange(0, 2).Draw(t, "dual") != 0 {
+				continue
+			}
+			ok := true
+			for _, meth := range s.Methods {
+				if meth.Streaming != "" || (meth.HTTP != nil && (meth.HTTP.Multipart || meth.HTTP.SkipReqBody || meth.HTTP.SkipRespBody)) {
+					ok = false
+				}
+			}
+			if !ok {
+				continue
+			}
+			s.HasGRPC = true
+			for _, meth := range s.Methods {
+				meth.GRPC = &m.GRPCEndpoint{}
+				flattenInline(meth.Payload)
+				flattenInline(meth.Result)
+			}
+			dual = true
+		}
+		if dual {
+			for _, ut := range d.Types {
+				flattenInline(ut.Attr)
+			}
+			assignTags(t, d)
+			g.feat("dual-transport")
+		}
 	}
 	// documentation metadata (drawn after everything else)
 	if g.p.Meta {
